@@ -306,6 +306,167 @@ def run_wrappers(chk):
                            key=f"C16/{fn}/post")
 
 
+# ------------------------------------------------------------------------------------------------ maximise
+class MaxHooks(OptHooks):
+    """maximise(): limited_use is used through the contract proved above (ghost state best/evals); the global and
+    local optimisers are arbitrary callers of f (havoc by the proved monotone invariant) with exceptional outcomes"""
+
+    def __init__(self, funcs, opt_outcomes):
+        super().__init__(funcs)
+        self.opt_outcomes = opt_outcomes
+        self.globals.update({"GlobalOptimiser": ("func", "GlobalOptimiser"), "LocalOptimiser": ("func", "LocalOptimiser"),
+                             "warnings": Opaque("module", modname="warnings")})
+
+    def call_name(self, eng, name, args, kw, env):
+        if name == "limited_use":
+            st = eng.state
+            st["best"], st["evals"], st["best_x"], st["first"] = -INF, 0, None, None
+            st["get_best_calls"] = 0
+            return (Opaque("get_best"), Opaque("wrapped_f"))
+        if name == "unsteadyProgressIndicator":
+            return Opaque("callback")
+        if name in ("GlobalOptimiser", "LocalOptimiser"):
+            return Opaque("optimiser", kind=name)
+        return super().call_name(eng, name, args, kw, env)
+
+    def call_value(self, eng, fn, args, kw, env):
+        st = eng.state
+        if isinstance(fn, Opaque) and fn.tag == "wrapped_f":
+            return self.wrapped(eng, args[0])
+        if isinstance(fn, Opaque) and fn.tag == "get_best":
+            st["get_best_calls"] += 1
+            return (st["best"], st["best_x"], st["evals"])
+        if isinstance(fn, tuple) and fn and fn[0] == "func" and fn[1] in ("GlobalOptimiser", "LocalOptimiser"):
+            return Opaque("optimiser", kind=fn[1])
+        return super().call_value(eng, fn, args, kw, env)
+
+    def wrapped(self, eng, x):
+        """contract of limited_use's wrapped_f (proved in run_limited_use)"""
+        st = eng.state
+        i = eng.choose(3, "wrapped_f")
+        if i == 1:
+            raise Raise("MaximumEvaluationsReached")
+        st["evals"] = st["evals"] + 1
+        if i == 2:
+            raise Raise("ArithmeticError")
+        v = fresh_real("fval")
+        eng.assume(z3.And(-INF <= v, v <= INF))
+        if st["first"] is None:
+            st["first"] = v
+        improved = v > st["best"]
+        # best_x' is a copy of x when improved: tracked as an opaque "best point" carrying its value
+        st["best_x"] = Opaque("vec", best_of=(st["best_x"], x, improved))
+        st["best"] = z3.If(improved, v, st["best"])
+        return v
+
+    def call_method(self, eng, obj, meth, args, kw, env):
+        st = eng.state
+        if isinstance(obj, Opaque) and obj.tag == "optimiser" and meth == "maximise":
+            # an arbitrary caller of f: by the proved invariant the best value can only grow
+            i = eng.choose(len(self.opt_outcomes), obj.attrs["kind"])
+            o = self.opt_outcomes[i]
+            eng.trace.append((obj.attrs["kind"], o))
+            b2 = fresh_real("best_after_opt")
+            eng.assume(z3.And(b2 >= st["best"], b2 <= INF))
+            st["best"] = b2
+            st["best_x"] = Opaque("vec", found_by=obj.attrs["kind"])
+            if o != "ok":
+                raise Raise(o)
+            return Opaque("vec", returned_by=obj.attrs["kind"])
+        if isinstance(obj, Opaque) and obj.tag == "module" and obj.attrs.get("modname") == "numpy":
+            if meth == "array":
+                return Opaque("vec", of=args[0])
+            if meth in ("atleast_1d", "squeeze"):
+                return args[0]
+        return super().call_method(eng, obj, meth, args, kw, env)
+
+    def numpy(self, eng, name, args, kw):
+        if name == "array":
+            return Opaque("vec", of=args[0])
+        if name in ("atleast_1d", "squeeze"):
+            return args[0]
+        return super().numpy(eng, name, args, kw)
+
+    def get_attr(self, eng, obj, attr):
+        if isinstance(obj, Opaque) and obj.tag == "vec" and attr == "shape":
+            return (Opaque("dim"),)
+        if isinstance(obj, Opaque) and obj.tag == "ui" and attr == "display":
+            return Opaque("display")
+        return super().get_attr(eng, obj, attr)
+
+
+def run_maximise(chk):
+    fn = "maths.optimisers.maximise"
+    funcs = {"maximise": extract.get(OPT, "maximise"), "bounded_function": extract.get(OPT, "bounded_function"),
+             "bounds_exception_catching_function": extract.get(OPT, "bounds_exception_catching_function")}
+    outs = ["ok", "MaximumEvaluationsReached", "RuntimeError", "KeyboardInterrupt"]
+    n = 0
+    for local in (None, True, False):
+        for bounds in (None, "given"):
+            hooks = MaxHooks(funcs, outs)
+            eng = Engine(funcs, hooks, max_paths=4000)
+            _patch_cmp(eng)
+
+            def entry(e):
+                e.state["current_x"] = None
+                b = None if bounds is None else (Opaque("bound"), Opaque("bound"))
+                return e.call("maximise", dict(f=Opaque("fn"), xinit=Opaque("xinit"), bounds=b, local=local, filename=None,
+                                               interval=None, max_restarts=None, max_evaluations=None, tolerance=1e-6,
+                                               global_tolerance=1e-1, ui=Opaque("ui"), return_eval_count=False, warn=False, kw={}))
+            try:
+                paths = eng.run(entry, BASE)
+            except Unsupported as u:
+                chk.undecided.append(f"{fn}/cfg=(local={local},bounds={bounds}): UNSUPPORTED {u}")
+                continue
+            base = f"{fn}/cfg=(local={local},bounds={bounds})"
+            for k, p in enumerate(paths):
+                if p.outcome == "abort":
+                    continue
+                n += 1
+                st = p.state
+                first = st.get("first")
+                started = first is not None
+                if p.outcome == "return":
+                    # the returned vector is get_best()'s best_x and its value is >= f(xinit)
+                    goal = z3.And(z3.BoolVal(p.value is st["best_x"] and st["get_best_calls"] == 1),
+                                  st["best"] >= first if started else z3.BoolVal(False))
+                    kind = "post.returns-get_best-and-never-below-start"
+                elif p.value == "ValueError":
+                    # only for an invalid / non-finite start (before any optimiser ran)
+                    goal = z3.BoolVal(st["get_best_calls"] == 0 and not any(t[0] in ("GlobalOptimiser", "LocalOptimiser") for t in p.trace))
+                    kind = "post.ValueError-only-for-invalid-start"
+                else:
+                    # an exception out of an optimiser (evaluation limit, interrupt, ...): get_best() still ran (finally),
+                    # so the calculator holds the best point found so far
+                    goal = z3.BoolVal(st["get_best_calls"] == 1)
+                    kind = "frame.get_best-runs-in-finally"
+                chk.obligation(f"{base}/{kind}/path={k}", kind.split(".")[0], smt_thunk(p.pc, goal, 20), function=fn,
+                               key=f"C16/{fn}/{kind}", replayer=_replay_maximise)
+    if n == 0:
+        chk.error(f"{fn}: no paths")
+
+
+def _replay_maximise(model):
+    """native: maximise on scripted functions never returns a point worse than the start, under evaluation limits"""
+    import numpy
+    from cogent3.maths.optimisers import MaximumEvaluationsReached, maximise
+    for maxev in (None, 1, 3, 10):
+        for local in (True, None):
+            def f(x):
+                x = numpy.atleast_1d(x)
+                return float(-((x - 0.3) ** 2).sum())
+            x0 = numpy.array([0.9, 0.1])
+            try:
+                x = maximise(f, x0, bounds=(numpy.zeros(2), numpy.ones(2)), local=local, max_evaluations=maxev,
+                             show_progress=False, tolerance=1e-4, max_restarts=1)
+            except MaximumEvaluationsReached:
+                continue
+            if f(x) < f(x0) - 1e-12:
+                return {"failed": True, "witness": {"max_evaluations": maxev, "local": local},
+                        "description": f"maximise(max_evaluations={maxev}, local={local}) returned a point with f={f(x)} below the start f={f(x0)}"}
+    return {"failed": False, "description": "scripted quadratic: returned point never below the start for limits None/1/3/10"}
+
+
 # ------------------------------------------------------------------------------------------------ ParameterController.optimise
 class PCHooks(ClassHooks):
     def __init__(self, funcs, lc_outcomes):
@@ -388,13 +549,14 @@ def run_pc_optimise(chk):
 
 
 def run(chk):
-    for q in ("limited_use", "bounded_function", "bounds_exception_catching_function"):
+    for q in ("limited_use", "bounded_function", "bounds_exception_catching_function", "maximise"):
         chk.function(OPT, q, "P")
     chk.function(SCOPE, "ParameterController.optimise", "P")
     only = getattr(chk, "only", None)
     if not only or "proof" in only:
         run_limited_use(chk)
         run_wrappers(chk)
+        run_maximise(chk)
         run_pc_optimise(chk)
         chk.discharge()
     chk.assume("float is modelled as the extended reals [-INF, INF]; NaN is excluded by precondition; rounding is not modelled")
